@@ -1,11 +1,11 @@
 #!/bin/bash
 # Confirms a seeded change produced by a sub-agent in a fresh scratch worktree of /repo HEAD:
 #  demo passes clean; with the patch: build+vet+full suite pass and the demo fails.
-# usage: verify_seed.sh <Cxx> <m1|m2>     (reads /tmp/seed/<Cxx>/out/<mk>/)
+# usage: verify_seed.sh <Cxx> <m1|m2>     (reads ${SEEDROOT:-/tmp/seed2}/<Cxx>/out/<mk>/)
 set -u
 P=$1; K=$2
-SRC=/tmp/seed/$P/out/$K
-ID=$P-$K
+SRC=${SEEDROOT:-/tmp/seed2}/$P/out/$K
+ID=$P-${SEEDTAG:-r2}$K
 WT=/tmp/vs/$ID
 export PATH=/opt/veriftools/go1.26.8/bin:$PATH GOFLAGS=-mod=mod GOPROXY=off GOSUMDB=off GOTOOLCHAIN=local GOWORK=off
 [ -f $SRC/patch.diff ] || { echo "$ID: no patch"; exit 2; }
